@@ -58,6 +58,12 @@ func c02PadCH(s *quic.QUICSpec, n int) {
 	s.ClientHelloSpec.Extensions = append(s.ClientHelloSpec.Extensions, &tls.GenericExtension{Id: 0xfe0d + 0x100, Data: make([]byte, n)})
 }
 
+// c02LayoutKnob: the knob fixes the Initial flight layout or the ClientHello size (frame
+// builders, flight builders, packet plans, ClientHello padding).
+func c02LayoutKnob(name string) bool {
+	return strings.HasPrefix(name, "fb-") || strings.HasPrefix(name, "plan-") || strings.HasPrefix(name, "ch-")
+}
+
 var c02Knobs = []c02Knob{
 	{"base", func(s *quic.QUICSpec, b string) {}},
 	{"scid0", func(s *quic.QUICSpec, b string) { s.InitialPacketSpec.SrcConnIDLength = 0 }},
@@ -404,12 +410,17 @@ func TestVerifC02(t *testing.T) {
 				for _, b := range c02SpecBases() {
 					for k1 := 1; k1 < len(c02Knobs); k1++ {
 						for k2 := k1 + 1; k2 < len(c02Knobs); k2++ {
+							if c02LayoutKnob(c02Knobs[k1].Name) && c02LayoutKnob(c02Knobs[k2].Name) {
+								// two knobs that each fix the flight layout (or the ClientHello size a layout was
+								// computed for) contradict each other: the second overwrites or invalidates the first
+								continue
+							}
 							cfgs = append(cfgs, c02Config{Base: b, Knobs: []int{k1, k2}, Server: 0, History: "seq3", Seed: seed(e)})
 						}
 					}
 				}
 			}
-			return cfgs, fmt.Sprintf("every built-in QUICID x every one-knob deviation (%d knobs; pairs in thorough) x dial histories on ONE reused spec value (3 sequential dials; 2 overlapping dials; second UTransport sharing the spec), default server, no faults", len(c02Knobs))
+			return cfgs, fmt.Sprintf("every built-in QUICID x every one-knob deviation (%d knobs; in thorough every pair except two layout knobs, which contradict each other) x dial histories on ONE reused spec value (3 sequential dials; 2 overlapping dials; second UTransport sharing the spec), default server, no faults", len(c02Knobs))
 		}),
 		c02Part(t, "servers-x-bases", func(e explore.Env) ([]c02Config, string) {
 			var cfgs []c02Config
